@@ -227,7 +227,12 @@ CHECKS = {
              "product-of-ratios argmax of the model is the first argmax of the mean SIR in dB (bestPermMul_is_first_argmax_db); "
              "_project_images is _project channel by channel. The exact model is tied to the "
              "real _project, _project_images, _bss_decomp_mtifilt(_images), the criteria and bss_eval_sources/_images "
-             "(forced filter length 1..3, cached-G path, lstsq fall-back) by correspondence at 1e-9.",
+             "(forced filter length 1..3, cached-G path, lstsq fall-back) by correspondence at 1e-9. "
+             "The code around the projections is REGENERATED from separation.py on every run (translator part sepcrit -> "
+             "MirGen/SepCrit.lean: _safe_db, _bss_source_crit, _bss_image_crit, the arithmetic of _bss_decomp_mtifilt with "
+             "_project as a parameter, _any_source_silent, the selection glue of bss_eval_sources and the window loops of both "
+             "framewise functions) and Props/C19_Gen.lean proves the generated definitions equal to the hand model for all "
+             "inputs and re-states the decomposition identity and the permutation optimality on them.",
         note="PARTIAL in one respect: that the FFT / Toeplitz / solve / fftconvolve pipeline computes the exact projection "
              "in binary64 is correspondence (small filter lengths) and numerical oracle (flen 512), not proof. Repaired: "
              "images-framewise isr uninitialised on silent windows, 4 arrays on empty input, AttributeError on a singular "
